@@ -265,57 +265,6 @@ theorem Ty.beq_trans (a : Ty) : a.hasUnion = false → ∀ b c, Ty.beq a b = tru
       cases c <;> simp only [Ty.beq, Bool.false_eq_true] at h2 ⊢ <;> grind
 /-! ### 3. `Ty.hashEq` (equality of hashes) -/
 
-theorem Ty.hashEqList_imp_of (as bs : List Ty)
-    (h : ∀ a ∈ as, ∀ b, Ty.hashEq a b = true → Ty.beq a b = true)
-    (h1 : Ty.hashEqList as bs = true) : Ty.beqList as bs = true := by
-  induction as generalizing bs with
-  | nil => cases bs <;> simp [Ty.hashEqList, Ty.beqList] at h1 ⊢
-  | cons a as ih =>
-    cases bs with
-    | nil => simp [Ty.hashEqList] at h1
-    | cons b bs =>
-      simp only [Ty.hashEqList, Ty.beqList, Bool.and_eq_true] at h1 ⊢
-      exact ⟨h a (by simp) b h1.1, ih bs (fun x hx => h x (by simp [hx])) h1.2⟩
-
-/-- hash-equal values are `==` (no accidental merging in the dict of `unite_values`) -/
-theorem Ty.hashEq_imp_beq' (a : Ty) : ∀ b, Ty.hashEq a b = true → Ty.beq a b = true := by
-  induction a using Ty.ind' with
-  | generic c as ih | seq c as ih =>
-    intro b h
-    cases b <;> simp only [Ty.hashEq, Bool.false_eq_true, Bool.and_eq_true] at h
-    simp only [Ty.beq, Bool.and_eq_true]
-    exact ⟨h.1, Ty.hashEqList_imp_of _ _ ih h.2⟩
-  | union as ih =>
-    intro b h
-    cases b <;> simp only [Ty.hashEq, Bool.false_eq_true] at h
-    simp only [Ty.beq, Bool.or_eq_true]
-    exact .inl (Ty.hashEqList_imp_of _ _ ih h)
-  | many t ih | annotated t ih =>
-    intro b h
-    cases b <;> simp only [Ty.hashEq, Bool.false_eq_true] at h
-    simp only [Ty.beq]
-    exact ih _ h
-  | _ =>
-    intro b h
-    cases b <;> simp only [Ty.hashEq, Bool.false_eq_true, Bool.and_eq_true] at h <;>
-      simp only [Ty.beq] <;> grind
-
-
-/-- `MultiValuedValue.__eq__`: equal member tuples, or mutual inclusion under hash lookup. -/
-theorem Ty.beq_union_iff {as bs : List Ty} :
-    Ty.beq (.union as) (.union bs) = true ↔
-      Ty.beqList as bs = true ∨
-        ((∀ a ∈ as, ∃ b ∈ bs, Ty.hashEq b a = true) ∧ (∀ b ∈ bs, ∃ a ∈ as, Ty.hashEq a b = true)) := by
-  simp only [Ty.beq, Bool.or_eq_true, Bool.and_eq_true, Ty.subsetH_iff]
-  constructor
-  · rintro (h | h)
-    · exact .inl h
-    · exact .inr ⟨fun a ha => let ⟨b, hb, h1, _⟩ := h.1 a ha; ⟨b, hb, h1⟩,
-        fun b hb => let ⟨a, ha, h1, _⟩ := h.2 b hb; ⟨a, ha, h1⟩⟩
-  · rintro (h | h)
-    · exact .inl h
-    · exact .inr ⟨fun a ha => let ⟨b, hb, h1⟩ := h.1 a ha; ⟨b, hb, h1, Ty.hashEq_imp_beq' _ _ h1⟩,
-        fun b hb => let ⟨a, ha, h1⟩ := h.2 b hb; ⟨a, ha, h1, Ty.hashEq_imp_beq' _ _ h1⟩⟩
 theorem Ty.hashEqList_comm_of (as bs : List Ty) (h : ∀ a ∈ as, ∀ b, Ty.hashEq a b = Ty.hashEq b a) :
     Ty.hashEqList as bs = Ty.hashEqList bs as := by
   induction as generalizing bs with
@@ -340,7 +289,6 @@ theorem Ty.hashEq_comm (a : Ty) : ∀ b, Ty.hashEq a b = Ty.hashEq b a := by
     rw [Ty.hashEqList_comm_of _ _ ih]
   | many t ih | annotated t ih => intro b; cases b <;> simp [Ty.hashEq, ih]
   | _ => intro b; cases b <;> simp [Ty.hashEq] <;> grind
-
 theorem Ty.hashEqList_trans_of (xs ys zs : List Ty)
     (h : ∀ x ∈ xs, ∀ y z, Ty.hashEq x y = true → Ty.hashEq y z = true → Ty.hashEq x z = true)
     (h1 : Ty.hashEqList xs ys = true) (h2 : Ty.hashEqList ys zs = true) :
@@ -360,14 +308,39 @@ theorem Ty.hashEqList_trans_of (xs ys zs : List Ty)
         exact ⟨h x (by simp) y z h1.1 h2.1,
           ih ys zs (fun x' hx' => h x' (by simp [hx'])) h1.2 h2.2⟩
 
+theorem Obj.zeroHashCls_same {a b : Obj} (h : Obj.same a b = true) :
+    a.zeroHashCls = b.zeroHashCls := by
+  cases a <;> cases b <;>
+    simp [Obj.same, Obj.tag, Obj.pyEq] at h <;>
+    first
+      | rfl
+      | (simp [Obj.zeroHashCls, h]; done)
+      | omega
+theorem Obj.zeroHashCls_inj {a b : Obj} {c : Cls} (ha : a.zeroHashCls = some c)
+    (hb : b.zeroHashCls = some c) :
+    a.hashable = true ∧ b.hashable = true ∧ Obj.same a b = true := by
+  cases a <;> cases b <;> simp [Obj.zeroHashCls] at ha hb <;>
+    simp_all [Obj.hashable, Obj.same, Obj.tag, Obj.pyEq, C.int, C.bool, C.str, C.bytes] <;>
+    (have := ha.2.trans hb.2.symm; simp at this)
 theorem Ty.hashEq_trans (a : Ty) : ∀ b c, Ty.hashEq a b = true → Ty.hashEq b c = true →
     Ty.hashEq a c = true := by
   induction a using Ty.ind' with
   | known o =>
     intro b c h1 h2
-    cases b <;> simp only [Ty.hashEq, Bool.false_eq_true, Bool.and_eq_true] at h1
-    cases c <;> simp only [Ty.hashEq, Bool.false_eq_true, Bool.and_eq_true] at h2 ⊢
-    exact ⟨⟨h1.1.1, h2.1.2⟩, Obj.same_trans h1.2 h2.2⟩
+    cases b <;> simp only [Ty.hashEq, Bool.false_eq_true, Bool.and_eq_true, beq_iff_eq] at h1 <;>
+      cases c <;> simp only [Ty.hashEq, Bool.false_eq_true, Bool.and_eq_true, beq_iff_eq] at h2 ⊢
+    · exact ⟨⟨h1.1.1, h2.1.2⟩, Obj.same_trans h1.2 h2.2⟩
+    · rw [Obj.zeroHashCls_same h1.2]; exact h2
+    · exact Obj.zeroHashCls_inj h1 h2 |> fun ⟨x, y, z⟩ => ⟨⟨x, y⟩, z⟩
+    · rw [h1, h2]
+  | typed d =>
+    intro b c h1 h2
+    cases b <;> simp only [Ty.hashEq, Bool.false_eq_true, beq_iff_eq] at h1 <;>
+      cases c <;> simp only [Ty.hashEq, Bool.false_eq_true, Bool.and_eq_true, beq_iff_eq] at h2 ⊢
+    · rw [← Obj.zeroHashCls_same h2.2]; exact h1
+    · rw [h1] at h2; exact (Option.some.inj h2)
+    · rw [h1]; exact h2
+    · exact h1.trans h2
   | generic c as ih | seq c as ih =>
     intro b c h1 h2
     cases b <;> simp only [Ty.hashEq, Bool.false_eq_true, Bool.and_eq_true, beq_iff_eq] at h1
@@ -387,7 +360,6 @@ theorem Ty.hashEq_trans (a : Ty) : ∀ b c, Ty.hashEq a b = true → Ty.hashEq b
     intro b c h1 h2
     cases b <;> simp only [Ty.hashEq, Bool.false_eq_true] at h1 <;>
       cases c <;> simp only [Ty.hashEq, Bool.false_eq_true] at h2 ⊢ <;> grind
-
 theorem Ty.hashEqList_of_beqList (as bs : List Ty)
     (h : ∀ a ∈ as, ∀ b ∈ bs, Ty.beq a b = true → Ty.hashEq a b = true)
     (h1 : Ty.beqList as bs = true) : Ty.hashEqList as bs = true := by
@@ -447,6 +419,182 @@ theorem Ty.hashEq_refl (a : Ty) : a.hasUnhashable = false → Ty.hashEq a a = tr
     exact Ty.hashEqList_refl_of _ fun t ht => ih t ht (h t ht)
   | many t ih | annotated t ih => intro h; simp only [Ty.hasUnhashable] at h; simp [Ty.hashEq, ih h]
   | _ => intro _; simp [Ty.hashEq]
+
+/-! ### 3b. `Ty.keq`: "the same dict key" — hash-equal **and** `==`
+
+This is the relation under which `unite_values` de-duplicates and `MultiValuedValue.__eq__` compares
+member sets. It is a partial equivalence (reflexive exactly on values without unhashable literal).
+Because of the zero-hash collision `Ty.hashEq` alone is not contained in `Ty.beq`. -/
+
+def Ty.keq (a b : Ty) : Bool := Ty.hashEq a b && Ty.beq a b
+def Ty.keqList (as bs : List Ty) : Bool := Ty.hashEqList as bs && Ty.beqList as bs
+
+theorem Ty.keq_iff {a b : Ty} : Ty.keq a b = true ↔ Ty.hashEq a b = true ∧ Ty.beq a b = true := by
+  simp [Ty.keq]
+
+theorem Ty.keq_imp_beq' (a b : Ty) (h : Ty.keq a b = true) : Ty.beq a b = true := (Ty.keq_iff.mp h).2
+theorem Ty.keq_imp_hashEq (a b : Ty) (h : Ty.keq a b = true) : Ty.hashEq a b = true := (Ty.keq_iff.mp h).1
+
+theorem Ty.keq_comm (a b : Ty) : Ty.keq a b = Ty.keq b a := by
+  simp only [Ty.keq, Ty.hashEq_comm a b, Ty.beq_comm a b]
+
+theorem Ty.keq_refl (a : Ty) (h : a.hasUnhashable = false) : Ty.keq a a = true := by
+  simp [Ty.keq, Ty.hashEq_refl a h, Ty.beq_refl a]
+
+theorem Ty.keqList_nil : Ty.keqList [] [] = true := by simp [Ty.keqList, Ty.hashEqList, Ty.beqList]
+theorem Ty.keqList_nil_cons (b : Ty) (bs : List Ty) : Ty.keqList [] (b :: bs) = false := by
+  simp [Ty.keqList, Ty.hashEqList]
+theorem Ty.keqList_cons_nil (a : Ty) (as : List Ty) : Ty.keqList (a :: as) [] = false := by
+  simp [Ty.keqList, Ty.hashEqList]
+theorem Ty.keqList_cons (a b : Ty) (as bs : List Ty) :
+    Ty.keqList (a :: as) (b :: bs) = (Ty.keq a b && Ty.keqList as bs) := by
+  simp only [Ty.keqList, Ty.keq, Ty.hashEqList, Ty.beqList]
+  cases Ty.hashEq a b <;> cases Ty.beq a b <;> cases Ty.hashEqList as bs <;> cases Ty.beqList as bs <;> rfl
+
+theorem Ty.keqList_iff {as bs : List Ty} :
+    Ty.keqList as bs = true ↔ Ty.hashEqList as bs = true ∧ Ty.beqList as bs = true := by
+  simp [Ty.keqList]
+
+/-- positional: the i-th elements are the same key -/
+theorem Ty.keqList_fwd {as bs : List Ty} (h : Ty.keqList as bs = true) :
+    ∀ a ∈ as, ∃ b ∈ bs, Ty.keq b a = true := by
+  induction as generalizing bs with
+  | nil => simp
+  | cons a as ih =>
+    cases bs with
+    | nil => simp [Ty.keqList_cons_nil] at h
+    | cons b bs =>
+      simp only [Ty.keqList_cons, Bool.and_eq_true] at h
+      intro x hx
+      simp only [List.mem_cons] at hx
+      rcases hx with rfl | hx
+      · exact ⟨b, by simp, by rw [Ty.keq_comm]; exact h.1⟩
+      · obtain ⟨y, hy, hxy⟩ := ih h.2 x hx
+        exact ⟨y, by simp [hy], hxy⟩
+
+theorem Ty.keqList_bwd {as bs : List Ty} (h : Ty.keqList as bs = true) :
+    ∀ b ∈ bs, ∃ a ∈ as, Ty.keq a b = true := by
+  induction as generalizing bs with
+  | nil => cases bs <;> simp [Ty.keqList_nil_cons] at h ⊢
+  | cons a as ih =>
+    cases bs with
+    | nil => simp
+    | cons b bs =>
+      simp only [Ty.keqList_cons, Bool.and_eq_true] at h
+      intro x hx
+      simp only [List.mem_cons] at hx
+      rcases hx with rfl | hx
+      · exact ⟨a, by simp, h.1⟩
+      · obtain ⟨y, hy, hxy⟩ := ih h.2 x hx
+        exact ⟨y, by simp [hy], hxy⟩
+
+theorem Ty.keqList_trans_of (xs ys zs : List Ty)
+    (h : ∀ x ∈ xs, ∀ y z, Ty.keq x y = true → Ty.keq y z = true → Ty.keq x z = true)
+    (h1 : Ty.keqList xs ys = true) (h2 : Ty.keqList ys zs = true) :
+    Ty.keqList xs zs = true := by
+  induction xs generalizing ys zs with
+  | nil =>
+    cases ys with
+    | cons y ys => simp [Ty.keqList_nil_cons] at h1
+    | nil =>
+      cases zs with
+      | cons z zs => simp [Ty.keqList_nil_cons] at h2
+      | nil => exact Ty.keqList_nil
+  | cons x xs ih =>
+    cases ys with
+    | nil => simp [Ty.keqList_cons_nil] at h1
+    | cons y ys =>
+      cases zs with
+      | nil => simp [Ty.keqList_cons_nil] at h2
+      | cons z zs =>
+        simp only [Ty.keqList_cons, Bool.and_eq_true] at h1 h2 ⊢
+        exact ⟨h x (by simp) y z h1.1 h2.1,
+          ih ys zs (fun x' hx' => h x' (by simp [hx'])) h1.2 h2.2⟩
+
+theorem Ty.keqList_map_of (f : Ty → Ty) {xs ys : List Ty} (h : Ty.keqList xs ys = true)
+    (hf : ∀ x ∈ xs, ∀ y ∈ ys, Ty.keq x y = true → Ty.keq (f x) (f y) = true) :
+    Ty.keqList (xs.map f) (ys.map f) = true := by
+  induction xs generalizing ys with
+  | nil =>
+    cases ys with
+    | cons y ys => simp [Ty.keqList_nil_cons] at h
+    | nil => exact Ty.keqList_nil
+  | cons x xs ih =>
+    cases ys with
+    | nil => simp [Ty.keqList_cons_nil] at h
+    | cons y ys =>
+      simp only [Ty.keqList_cons, List.map_cons, Bool.and_eq_true] at h ⊢
+      exact ⟨hf x (by simp) y (by simp) h.1,
+        ih h.2 fun x' hx' y' hy' => hf x' (by simp [hx']) y' (by simp [hy'])⟩
+
+/-- `MultiValuedValue.__eq__`: equal member tuples, or mutual inclusion under hash-and-`==` lookup. -/
+theorem Ty.beq_union_iff {as bs : List Ty} :
+    Ty.beq (.union as) (.union bs) = true ↔
+      Ty.beqList as bs = true ∨
+        ((∀ a ∈ as, ∃ b ∈ bs, Ty.keq b a = true) ∧ (∀ b ∈ bs, ∃ a ∈ as, Ty.keq a b = true)) := by
+  simp only [Ty.beq, Bool.or_eq_true, Bool.and_eq_true, Ty.subsetH_iff, Ty.keq_iff]
+
+theorem Ty.keq_union_iff {as bs : List Ty} :
+    Ty.keq (.union as) (.union bs) = true ↔
+      Ty.hashEqList as bs = true ∧
+        ((∀ a ∈ as, ∃ b ∈ bs, Ty.keq b a = true) ∧ (∀ b ∈ bs, ∃ a ∈ as, Ty.keq a b = true)) := by
+  rw [Ty.keq_iff, Ty.beq_union_iff]
+  simp only [Ty.hashEq]
+  constructor
+  · rintro ⟨hh, hb | hb⟩
+    · have hk : Ty.keqList as bs = true := Ty.keqList_iff.mpr ⟨hh, hb⟩
+      exact ⟨hh, Ty.keqList_fwd hk, Ty.keqList_bwd hk⟩
+    · exact ⟨hh, hb⟩
+  · rintro ⟨hh, hb⟩
+    exact ⟨hh, .inr hb⟩
+
+theorem Ty.keq_trans (a : Ty) : ∀ b c, Ty.keq a b = true → Ty.keq b c = true →
+    Ty.keq a c = true := by
+  induction a using Ty.ind' with
+  | generic d as ih =>
+    intro b c h1 h2
+    have hh := Ty.hashEq_trans _ _ _ (Ty.keq_imp_hashEq _ _ h1) (Ty.keq_imp_hashEq _ _ h2)
+    cases b <;> try (simp [Ty.keq, Ty.beq] at h1; done)
+    cases c <;> try (simp [Ty.keq, Ty.beq] at h2; done)
+    simp only [Ty.keq_iff, Ty.hashEq, Ty.beq, Bool.and_eq_true, beq_iff_eq] at h1 h2 hh ⊢
+    have := Ty.keqList_trans_of _ _ _ ih (Ty.keqList_iff.mpr ⟨h1.1.2, h1.2.2⟩)
+      (Ty.keqList_iff.mpr ⟨h2.1.2, h2.2.2⟩)
+    exact ⟨hh, h1.2.1.trans h2.2.1, (Ty.keqList_iff.mp this).2⟩
+  | seq d as ih =>
+    intro b c h1 h2
+    have hh := Ty.hashEq_trans _ _ _ (Ty.keq_imp_hashEq _ _ h1) (Ty.keq_imp_hashEq _ _ h2)
+    cases b <;> try (simp [Ty.keq, Ty.beq] at h1; done)
+    cases c <;> try (simp [Ty.keq, Ty.beq] at h2; done)
+    simp only [Ty.keq_iff, Ty.hashEq, Ty.beq, Bool.and_eq_true, beq_iff_eq] at h1 h2 hh ⊢
+    have := Ty.keqList_trans_of _ _ _ ih (Ty.keqList_iff.mpr ⟨h1.1.2, h1.2.2⟩)
+      (Ty.keqList_iff.mpr ⟨h2.1.2, h2.2.2⟩)
+    exact ⟨hh, h1.2.1.trans h2.2.1, (Ty.keqList_iff.mp this).2⟩
+  | union as ih =>
+    intro b c h1 h2
+    cases b <;> try (simp [Ty.keq, Ty.beq] at h1; done)
+    cases c <;> try (simp [Ty.keq, Ty.beq] at h2; done)
+    rw [Ty.keq_union_iff] at h1 h2 ⊢
+    refine ⟨Ty.hashEqList_trans_of _ _ _ (fun x _ => Ty.hashEq_trans x) h1.1 h2.1, ?_, ?_⟩
+    · intro x hx
+      obtain ⟨y, hy, hyx⟩ := h1.2.1 x hx
+      obtain ⟨z, hz, hzy⟩ := h2.2.1 y hy
+      refine ⟨z, hz, ?_⟩
+      rw [Ty.keq_comm] at hyx hzy ⊢
+      exact ih x hx y z hyx hzy
+    · intro z hz
+      obtain ⟨y, hy, hyz⟩ := h2.2.2 z hz
+      obtain ⟨x, hx, hxy⟩ := h1.2.2 y hy
+      exact ⟨x, hx, ih x hx y z hxy hyz⟩
+  | many t ih | annotated t ih =>
+    intro b c h1 h2
+    cases b <;> try (simp [Ty.keq, Ty.beq] at h1; done)
+    cases c <;> try (simp [Ty.keq, Ty.beq] at h2; done)
+    simp only [Ty.keq, Ty.hashEq, Ty.beq] at h1 h2 ⊢
+    exact ih _ _ h1 h2
+  | _ =>
+    intro b c h1 h2
+    rw [Ty.keq_iff] at h1 h2 ⊢
+    exact ⟨Ty.hashEq_trans _ _ _ h1.1 h2.1, Ty.beq_trans _ (by simp [Ty.hasUnion]) _ _ h1.2 h2.2⟩
 
 /-! ### 4. `==` values have the same members -/
 
@@ -600,21 +748,15 @@ theorem memAny_flatten1 (tbl : ClassTable) (o : Obj) (t : Ty) :
     cases t' <;> simp [flatten1, mem, memAny_eq_any, List.any_map, Function.comp_def, mem_annotate]
   | _ => simp [flatten1, memAny, mem]
 
-theorem dictMem_eq_any (v : Ty) : ∀ acc, dictMem v acc = acc.any (fun e => Ty.hashEq e v)
+theorem dictMem_eq_any (v : Ty) : ∀ acc, dictMem v acc = acc.any (fun e => Ty.keq e v)
   | [] => by simp [dictMem]
-  | e :: es => by
-    have : (Ty.hashEq e v && Ty.beq e v) = Ty.hashEq e v := by
-      cases h : Ty.hashEq e v
-      · simp
-      · simp [Ty.hashEq_imp_beq' e v h]
-    simp [dictMem, this, dictMem_eq_any v es]
-
+  | e :: es => by simp [dictMem, Ty.keq, dictMem_eq_any v es]
 theorem dictMem_iff {v : Ty} {acc : List Ty} :
-    dictMem v acc = true ↔ ∃ e ∈ acc, Ty.hashEq e v = true := by
+    dictMem v acc = true ↔ ∃ e ∈ acc, Ty.keq e v = true := by
   simp [dictMem_eq_any]
 
 theorem dictMem_false_iff {v : Ty} {acc : List Ty} :
-    dictMem v acc = false ↔ ∀ e ∈ acc, Ty.hashEq e v = false := by
+    dictMem v acc = false ↔ ∀ e ∈ acc, Ty.keq e v = false := by
   simp [dictMem_eq_any]
 
 /-- the part `dedup` adds to the accumulator -/
@@ -661,7 +803,7 @@ theorem acc_sub_dedup (acc l : List Ty) : ∀ x ∈ acc, x ∈ dedup acc l := by
 
 /-- every processed value is in the result or hash-equal to something in it -/
 theorem dedup_cover (acc l : List Ty) :
-    ∀ v ∈ l, v ∈ dedup acc l ∨ ∃ e ∈ dedup acc l, Ty.hashEq e v = true := by
+    ∀ v ∈ l, v ∈ dedup acc l ∨ ∃ e ∈ dedup acc l, Ty.keq e v = true := by
   induction l generalizing acc with
   | nil => simp
   | cons w l ih =>
@@ -683,7 +825,7 @@ theorem dedup_cover_beq (acc l : List Ty) :
   intro v hv
   rcases dedup_cover acc l v hv with h | ⟨e, he, hev⟩
   · exact ⟨v, h, Ty.beq_refl v⟩
-  · exact ⟨e, he, by rw [Ty.beq_comm]; exact Ty.hashEq_imp_beq' e v hev⟩
+  · exact ⟨e, he, by rw [Ty.beq_comm]; exact Ty.keq_imp_beq' e v hev⟩
 
 theorem memAny_dedup (tbl : ClassTable) (o : Obj) (acc l : List Ty) :
     memAny tbl o (dedup acc l) = (memAny tbl o acc || memAny tbl o l) := by
@@ -729,7 +871,7 @@ theorem unite_mem' (tbl : ClassTable) (o : Obj) (vs : List Ty) :
 /-! ### 6. `dedup` as de-duplication for the partial equivalence `hashEq` -/
 
 /-- no two entries hash equal (what the dict of `unite_values` guarantees for its keys) -/
-def HNodup (l : List Ty) : Prop := l.Pairwise (fun e v => Ty.hashEq e v = false)
+def HNodup (l : List Ty) : Prop := l.Pairwise (fun e v => Ty.keq e v = false)
 
 theorem dedup_hnodup (acc l : List Ty) (h : HNodup acc) : HNodup (dedup acc l) := by
   induction l generalizing acc with
@@ -765,7 +907,7 @@ theorem dedup_idem (l : List Ty) : dedup [] (dedup [] l) = dedup [] l := by
 
 /-- values already dropped against a covered accumulator would be dropped again -/
 theorem dedup_ddrop (acc acc0 l : List Ty)
-    (hc : ∀ e ∈ acc0, ∀ w, Ty.hashEq e w = true → dictMem w acc = true) :
+    (hc : ∀ e ∈ acc0, ∀ w, Ty.keq e w = true → dictMem w acc = true) :
     dedup acc (ddrop acc0 l) = dedup acc l := by
   induction l generalizing acc acc0 with
   | nil => simp [ddrop]
@@ -784,7 +926,7 @@ theorem dedup_ddrop (acc acc0 l : List Ty)
         rcases he with he | rfl
         · exact hc e he w hew
         · obtain ⟨e', he', hev⟩ := dictMem_iff.mp h1
-          exact dictMem_iff.mpr ⟨e', he', Ty.hashEq_trans _ _ _ hev hew⟩
+          exact dictMem_iff.mpr ⟨e', he', Ty.keq_trans _ _ _ hev hew⟩
       · simp only [h1, Bool.false_eq_true, if_false]
         refine ih (acc ++ [v]) (acc0 ++ [v]) ?_
         intro e he w hew
@@ -824,7 +966,7 @@ theorem dedup_single_agree {M1 M2 : List Ty} (hlen : M1.length = M2.length)
     rw [dedup_eq] at h
     have hnil : ddrop [x] rest = [] := by
       simpa using h
-    have hx : ∀ v ∈ rest, Ty.hashEq x v = true := by
+    have hx : ∀ v ∈ rest, Ty.keq x v = true := by
       intro v hv
       have := (ddrop_nil_iff _ _).mp hnil v hv
       simpa [dictMem_eq_any] using this
@@ -844,9 +986,9 @@ theorem dedup_single_agree {M1 M2 : List Ty} (hlen : M1.length = M2.length)
         subst this; simp at hv
       | cons r rest' =>
         have hxr := hx r (by simp)
-        have hxx : Ty.hashEq x x = true :=
-          Ty.hashEq_trans _ _ _ hxr (by rw [Ty.hashEq_comm]; exact hxr)
-        have hall : ∀ u ∈ x :: r :: rest', Ty.hashEq x u = true := by
+        have hxx : Ty.keq x x = true :=
+          Ty.keq_trans _ _ _ hxr (by rw [Ty.keq_comm]; exact hxr)
+        have hall : ∀ u ∈ x :: r :: rest', Ty.keq x u = true := by
           intro u hu
           simp only [List.mem_cons] at hu
           rcases hu with rfl | hu
@@ -854,10 +996,10 @@ theorem dedup_single_agree {M1 M2 : List Ty} (hlen : M1.length = M2.length)
           · exact hx u (by simpa using hu)
         have hy := hall y ((hmem y).mpr (by simp))
         have hv' := hall v ((hmem v).mpr (by simp [hv]))
-        exact Ty.hashEq_trans _ _ _ (by rw [Ty.hashEq_comm]; exact hy) hv'
+        exact Ty.keq_trans _ _ _ (by rw [Ty.keq_comm]; exact hy) hv'
 
-theorem pack_beq {D1 D2 : List Ty} (h12 : ∀ x ∈ D1, ∃ y ∈ D2, Ty.hashEq y x = true)
-    (h21 : ∀ y ∈ D2, ∃ x ∈ D1, Ty.hashEq x y = true) (hs : D1.length = 1 ↔ D2.length = 1) :
+theorem pack_beq {D1 D2 : List Ty} (h12 : ∀ x ∈ D1, ∃ y ∈ D2, Ty.keq y x = true)
+    (h21 : ∀ y ∈ D2, ∃ x ∈ D1, Ty.keq x y = true) (hs : D1.length = 1 ↔ D2.length = 1) :
     Ty.beq (pack D1) (pack D2) = true := by
   match D1, D2 with
   | [], [] => simp [pack, Ty.beq_refl]
@@ -866,15 +1008,15 @@ theorem pack_beq {D1 D2 : List Ty} (h12 : ∀ x ∈ D1, ∃ y ∈ D2, Ty.hashEq 
   | [x], [y] =>
     obtain ⟨x', hx, h⟩ := h21 y (by simp)
     simp only [List.mem_singleton] at hx; subst hx
-    simpa [pack] using Ty.hashEq_imp_beq' _ _ h
+    simpa [pack] using Ty.keq_imp_beq' _ _ h
   | [x], _ :: _ :: _ => simp at hs
   | _ :: _ :: _, [y] => simp at hs
   | x1 :: x2 :: l, y1 :: y2 :: l' =>
     simp only [pack]
     exact Ty.beq_union_iff.mpr (.inr ⟨h12, h21⟩)
 /-- with hash-reflexive values, every processed value is hash-equal to something in the result -/
-theorem dedup_coverH (l : List Ty) (hr : ∀ v ∈ l, Ty.hashEq v v = true) :
-    ∀ v ∈ l, ∃ e ∈ dedup [] l, Ty.hashEq e v = true := by
+theorem dedup_coverH (l : List Ty) (hr : ∀ v ∈ l, Ty.keq v v = true) :
+    ∀ v ∈ l, ∃ e ∈ dedup [] l, Ty.keq e v = true := by
   intro v hv
   rcases dedup_cover [] l v hv with h | h
   · exact ⟨v, h, hr v hv⟩
@@ -883,9 +1025,9 @@ theorem dedup_coverH (l : List Ty) (hr : ∀ v ∈ l, Ty.hashEq v v = true) :
 /-- `unite_values` is insensitive to the order of the flattened members, up to `==`, when every
 member has a stable hash. -/
 theorem pack_dedup_perm {M1 M2 : List Ty} (hlen : M1.length = M2.length)
-    (hmem : ∀ v, v ∈ M1 ↔ v ∈ M2) (hr : ∀ v ∈ M1, Ty.hashEq v v = true) :
+    (hmem : ∀ v, v ∈ M1 ↔ v ∈ M2) (hr : ∀ v ∈ M1, Ty.keq v v = true) :
     Ty.beq (pack (dedup [] M1)) (pack (dedup [] M2)) = true := by
-  have hr2 : ∀ v ∈ M2, Ty.hashEq v v = true := fun v hv => hr v ((hmem v).mpr hv)
+  have hr2 : ∀ v ∈ M2, Ty.keq v v = true := fun v hv => hr v ((hmem v).mpr hv)
   apply pack_beq
   · intro x hx
     have := dedup_sub [] M1 x hx
@@ -1013,7 +1155,7 @@ theorem unite_perm' {vs ws : List Ty} (h : vs.Perm ws)
   refine pack_dedup_perm hp.length_eq (fun v => hp.mem_iff) ?_
   intro x hx
   obtain ⟨v, hv, hxv⟩ := List.mem_flatMap.mp hx
-  exact Ty.hashEq_refl x (hr v hv x hxv)
+  exact Ty.keq_refl x (hr v hv x hxv)
 theorem unite_never_cons (vs : List Ty) : unite (Ty.never :: vs) = unite vs := by
   simp [unite, Ty.never, flatten1]
 
@@ -1045,9 +1187,9 @@ theorem hnodup_of_dupIn {ts : List Ty} (h : hasDupMembers.dupIn ts = false) : HN
   rw [dupIn_false_iff] at h
   refine List.Pairwise.imp ?_ h
   intro e v hev
-  cases hh : Ty.hashEq e v
+  cases hh : Ty.keq e v
   · rfl
-  · simp [Ty.hashEq_imp_beq' e v hh] at hev
+  · simp [Ty.keq_imp_beq' e v hh] at hev
 
 theorem pack_of_length_ne_one {ts : List Ty} (h : ts.length ≠ 1) : pack ts = .union ts := by
   match ts with
@@ -1089,7 +1231,7 @@ theorem unite_idem' {a : Ty} (h1 : isAnnUnion a = false) (h2 : nonNormalUnion a 
     have hdrop : ddrop ts ts = [] := by
       rw [ddrop_nil_iff]
       intro v hv
-      exact dictMem_iff.mpr ⟨v, hv, Ty.hashEq_refl v (h3 v hv)⟩
+      exact dictMem_iff.mpr ⟨v, hv, Ty.keq_refl v (h3 v hv)⟩
     have hD : dedup [] (ts ++ ts) = ts := by
       rw [dedup_append, hts, dedup_eq, hdrop, List.append_nil]
     simp [unite_eq, flatten1, hD, pack_of_length_ne_one hl]
@@ -1097,10 +1239,10 @@ theorem unite_idem' {a : Ty} (h1 : isAnnUnion a = false) (h2 : nonNormalUnion a 
     simp [unite_eq, flatten1_of_not_isU hiu, dedup, dictMem, Ty.hashEq_refl a h3, Ty.beq_refl, pack]
 /-- on tidy values hash equality and `==` coincide -/
 theorem tidy_hashEq {a b : Ty} (ha : a.tidy = true) (hb : b.tidy = true) :
-    Ty.hashEq a b = Ty.beq a b := by
+    Ty.keq a b = Ty.beq a b := by
   simp only [Ty.tidy, Bool.and_eq_true, Bool.not_eq_true'] at ha hb
   rw [Bool.eq_iff_iff]
-  exact ⟨Ty.hashEq_imp_beq' a b, Ty.beq_imp_hashEq a b ha.1 ha.2 hb.2⟩
+  exact ⟨Ty.keq_imp_beq' a b, fun h => Ty.keq_iff.mpr ⟨Ty.beq_imp_hashEq a b ha.1 ha.2 hb.2 h, h⟩⟩
 
 theorem dupIn_of_hnodup_tidy {ts : List Ty} (ht : ∀ t ∈ ts, t.tidy = true) (h : HNodup ts) :
     hasDupMembers.dupIn ts = false := by
@@ -1442,6 +1584,147 @@ theorem hashEq_subst (m : TvMap) (a : Ty) : ∀ b, Ty.hashEq a b = true →
       first | exact h | rfl
 /-! #### substitution against uniting -/
 
+
+
+theorem isU_of_hashEq {x y : Ty} (h : Ty.hashEq x y = true) : x.isU = y.isU := by
+  cases x <;> cases y <;> simp only [Ty.hashEq, Bool.false_eq_true] at h <;> try rfl
+  rename_i x' y'
+  cases x' <;> cases y' <;> simp only [Ty.hashEq, Bool.false_eq_true] at h <;> rfl
+
+theorem beq_annotate {a b : Ty} (h : Ty.beq a b = true) : Ty.beq (annotate a) (annotate b) = true := by
+  cases a <;> cases b <;> simp only [Ty.beq, Bool.false_eq_true] at h <;>
+    simp only [annotate, Ty.beq] <;> first | exact h | rfl
+
+theorem keq_annotate {a b : Ty} (h : Ty.keq a b = true) : Ty.keq (annotate a) (annotate b) = true :=
+  Ty.keq_iff.mpr ⟨hashEq_annotate (Ty.keq_imp_hashEq _ _ h), beq_annotate (Ty.keq_imp_beq' _ _ h)⟩
+
+theorem Ty.keq_generic (c d : Cls) (as bs : List Ty) :
+    Ty.keq (.generic c as) (.generic d bs) = ((c == d) && Ty.keqList as bs) := by
+  simp only [Ty.keq, Ty.keqList, Ty.hashEq, Ty.beq]
+  cases (c == d) <;> cases Ty.hashEqList as bs <;> cases Ty.beqList as bs <;> rfl
+
+theorem Ty.keq_seq (c d : Cls) (as bs : List Ty) :
+    Ty.keq (.seq c as) (.seq d bs) = ((c == d) && Ty.keqList as bs) := by
+  simp only [Ty.keq, Ty.keqList, Ty.hashEq, Ty.beq]
+  cases (c == d) <;> cases Ty.hashEqList as bs <;> cases Ty.beqList as bs <;> rfl
+
+/-- the flattened members of two values that are the same key correspond -/
+theorem keq_flatten1_bwd {x y : Ty} (h : Ty.keq x y = true) :
+    ∀ v ∈ flatten1 y, ∃ u ∈ flatten1 x, Ty.keq u v = true := by
+  have hiu := isU_of_hashEq (Ty.keq_imp_hashEq _ _ h)
+  by_cases hx : x.isU = true
+  · cases x with
+    | union as =>
+      cases y with
+      | union bs => exact (Ty.keq_union_iff.mp h).2.2
+      | _ => simp [Ty.keq, Ty.beq] at h
+    | annotated x' =>
+      cases y with
+      | annotated y' =>
+        have h' : Ty.keq x' y' = true := by simpa [Ty.keq, Ty.hashEq, Ty.beq] using h
+        cases x' with
+        | union as =>
+          cases y' with
+          | union bs =>
+            intro v hv
+            simp only [flatten1, List.mem_map] at hv ⊢
+            obtain ⟨b, hb, rfl⟩ := hv
+            obtain ⟨a, ha, hab⟩ := (Ty.keq_union_iff.mp h').2.2 b hb
+            exact ⟨_, ⟨a, ha, rfl⟩, keq_annotate hab⟩
+          | _ => simp [Ty.keq, Ty.beq] at h'
+        | _ => simp [Ty.isU] at hx
+      | _ => simp [Ty.keq, Ty.beq] at h
+    | _ => simp [Ty.isU] at hx
+  · have hx' : x.isU = false := by simpa using hx
+    rw [flatten1_of_not_isU hx', flatten1_of_not_isU (hiu ▸ hx')]
+    simpa using h
+
+/-- substitution respects "same key" when the substituted right-hand side contains no unhashable
+literal -/
+theorem keq_subst (m : TvMap) (a : Ty) : ∀ b, Ty.keq a b = true →
+    (subst m b).hasUnhashable = false → Ty.keq (subst m a) (subst m b) = true := by
+  induction a using Ty.ind' with
+  | generic c as ih =>
+    intro b h hu
+    cases b with
+    | generic d bs =>
+      simp only [Ty.keq_generic, Bool.and_eq_true] at h
+      simp only [subst, substL_eq_map, Ty.hasUnhashable, Ty.hasUnhashableL_iff, List.mem_map,
+        forall_exists_index, and_imp, forall_apply_eq_imp_iff₂] at hu
+      simp only [subst, substL_eq_map, Ty.keq_generic, Bool.and_eq_true]
+      exact ⟨h.1, Ty.keqList_map_of _ h.2 fun x hx y hy hxy => ih x hx y hxy (hu y hy)⟩
+    | _ => simp [Ty.keq, Ty.beq] at h
+  | seq c as ih =>
+    intro b h hu
+    cases b with
+    | seq d bs =>
+      simp only [Ty.keq_seq, Bool.and_eq_true] at h
+      simp only [subst, substL_eq_map, Ty.hasUnhashable, Ty.hasUnhashableL_iff, List.mem_map,
+        forall_exists_index, and_imp, forall_apply_eq_imp_iff₂] at hu
+      simp only [subst, substL_eq_map, Ty.keq_seq, Bool.and_eq_true]
+      exact ⟨h.1, Ty.keqList_map_of _ h.2 fun x hx y hy hxy => ih x hx y hxy (hu y hy)⟩
+    | _ => simp [Ty.keq, Ty.beq] at h
+  | many t ih =>
+    intro b h hu
+    cases b with
+    | many t' =>
+      have h' : Ty.keq t t' = true := by simpa [Ty.keq, Ty.hashEq, Ty.beq] using h
+      simp only [subst, Ty.hasUnhashable] at hu
+      simpa [subst, Ty.keq, Ty.hashEq, Ty.beq] using ih _ h' hu
+    | _ => simp [Ty.keq, Ty.beq] at h
+  | annotated t ih =>
+    intro b h hu
+    cases b with
+    | annotated t' =>
+      have h' : Ty.keq t t' = true := by simpa [Ty.keq, Ty.hashEq, Ty.beq] using h
+      simp only [subst, Ty.hasUnhashable] at hu
+      simpa [subst, Ty.keq, Ty.hashEq, Ty.beq] using ih _ h' hu
+    | _ => simp [Ty.keq, Ty.beq] at h
+  | tvar i =>
+    intro b h hu
+    cases b with
+    | tvar j =>
+      have : i = j := by simpa [Ty.keq, Ty.hashEq, Ty.beq] using h
+      subst this; exact Ty.keq_refl _ hu
+    | _ => simp [Ty.keq, Ty.beq] at h
+  | union as ih =>
+    intro b h hu
+    cases b with
+    | union bs =>
+      have H := hashEq_subst m (.union as) (.union bs) (Ty.keq_imp_hashEq _ _ h) hu
+      obtain ⟨hh, hmi⟩ := Ty.keq_union_iff.mp h
+      have hemp := Ty.hashEqList_isEmpty hh
+      simp only [subst, hemp] at hu H ⊢
+      split
+      · exact h
+      · rename_i hc
+        simp only [if_neg hc] at hu H
+        simp only [mkUnion, Ty.hasUnhashable, Ty.hasUnhashableL_iff] at hu
+        simp only [mkUnion, Ty.hashEq] at H
+        simp only [mkUnion]
+        have hsub : ∀ y ∈ bs, (subst m y).hasUnhashable = false := by
+          intro y hy
+          rw [hasUnhashable_flatten1]
+          intro z hz
+          exact hu z (mem_flatMap_subst.mpr ⟨y, hy, hz⟩)
+        refine Ty.keq_union_iff.mpr ⟨H, ?_, ?_⟩
+        · intro x hx
+          obtain ⟨a, ha, hxa⟩ := mem_flatMap_subst.mp hx
+          obtain ⟨b, hb, hba⟩ := hmi.1 a ha
+          rw [Ty.keq_comm] at hba
+          have := ih a ha b hba (hsub b hb)
+          rw [Ty.keq_comm] at this
+          obtain ⟨y, hy, hyx⟩ := keq_flatten1_bwd this x hxa
+          exact ⟨y, mem_flatMap_subst.mpr ⟨b, hb, hy⟩, hyx⟩
+        · intro y hy
+          obtain ⟨b, hb, hyb⟩ := mem_flatMap_subst.mp hy
+          obtain ⟨a, ha, hab⟩ := hmi.2 b hb
+          obtain ⟨x, hx, hxy⟩ := keq_flatten1_bwd (ih a ha b hab (hsub b hb)) y hyb
+          exact ⟨x, mem_flatMap_subst.mpr ⟨a, ha, hx⟩, hxy⟩
+    | _ => simp [Ty.keq, Ty.beq] at h
+  | _ =>
+    intro b h _
+    cases b <;> first | (simp [Ty.keq, Ty.beq] at h; done) | (simpa [subst] using h)
 theorem flatten1_subst {m : TvMap} (hm : m ≠ []) {t : Ty} (h : isAnnUnion t = false) :
     flatten1 (subst m t) = (substL m (flatten1 t)).flatMap flatten1 := by
   have hme : m.isEmpty = false := by cases m <;> simp_all
@@ -1474,7 +1757,7 @@ theorem pack_flatten1 {t : Ty} (h1 : isAnnUnion t = false) (h2 : nonNormalUnion 
     simp [flatten1_of_not_isU hiu, pack]
 
 theorem hnodup_all_rel {l : List Ty} {x : Ty} (hp : HNodup l)
-    (h : ∀ y ∈ l, Ty.hashEq x y = true) : l.length ≤ 1 := by
+    (h : ∀ y ∈ l, Ty.keq x y = true) : l.length ≤ 1 := by
   match l with
   | [] => simp
   | [_] => simp
@@ -1482,8 +1765,8 @@ theorem hnodup_all_rel {l : List Ty} {x : Ty} (hp : HNodup l)
     exfalso
     have h1 := h y1 (by simp)
     have h2 := h y2 (by simp)
-    rw [Ty.hashEq_comm] at h1
-    have := Ty.hashEq_trans _ _ _ h1 h2
+    rw [Ty.keq_comm] at h1
+    have := Ty.keq_trans _ _ _ h1 h2
     unfold HNodup at hp
     rw [List.pairwise_cons] at hp
     simp [hp.1 y2 (by simp)] at this
@@ -1523,17 +1806,17 @@ theorem subst_unite' (m : TvMap) {a b : Ty}
     rw [← pack_flatten1 hL1 hL2, hR, hP]
     generalize hMdef : [a, b].flatMap flatten1 = M at *
     generalize hLdef : subst m (unite [a, b]) = L at *
-    have hrefl : ∀ x ∈ (substL m M).flatMap flatten1, Ty.hashEq x x = true := by
+    have hrefl : ∀ x ∈ (substL m M).flatMap flatten1, Ty.keq x x = true := by
       intro x hx
       obtain ⟨w, hw, hxw⟩ := mem_flatMap_subst.mp hx
-      exact Ty.hashEq_refl x (hnoW w hw x hxw)
+      exact Ty.keq_refl x (hnoW w hw x hxw)
     have h12 : ∀ x ∈ (substL m (dedup [] M)).flatMap flatten1,
-        ∃ y ∈ dedup [] ((substL m M).flatMap flatten1), Ty.hashEq y x = true := by
+        ∃ y ∈ dedup [] ((substL m M).flatMap flatten1), Ty.keq y x = true := by
       intro x hx
       obtain ⟨w, hw, hxw⟩ := mem_flatMap_subst.mp hx
       exact dedup_coverH _ hrefl x (mem_flatMap_subst.mpr ⟨w, dedup_nil_sub _ w hw, hxw⟩)
     have h21 : ∀ y ∈ dedup [] ((substL m M).flatMap flatten1),
-        ∃ x ∈ (substL m (dedup [] M)).flatMap flatten1, Ty.hashEq x y = true := by
+        ∃ x ∈ (substL m (dedup [] M)).flatMap flatten1, Ty.keq x y = true := by
       intro y hy
       have hyM := dedup_nil_sub _ y hy
       obtain ⟨w, hw, hyw⟩ := mem_flatMap_subst.mp hyM
@@ -1541,14 +1824,13 @@ theorem subst_unite' (m : TvMap) {a b : Ty}
       · exact ⟨y, mem_flatMap_subst.mpr ⟨w, hwD, hyw⟩, hrefl y hyM⟩
       · have hsw : (subst m w).hasUnhashable = false :=
           (hasUnhashable_flatten1 _).mpr (hnoW w hw)
-        obtain ⟨x, hx, hxy⟩ :=
-          Ty.hashEqList_bwd (hashEq_flatten1 (hashEq_subst m e w hew hsw)) y hyw
+        obtain ⟨x, hx, hxy⟩ := keq_flatten1_bwd (keq_subst m e w hew hsw) y hyw
         exact ⟨x, mem_flatMap_subst.mpr ⟨e, he, hx⟩, hxy⟩
     apply pack_beq h12 h21
     constructor
     · intro h1
       obtain ⟨x, hx⟩ := List.length_eq_one_iff.mp h1
-      have hall : ∀ y ∈ dedup [] ((substL m M).flatMap flatten1), Ty.hashEq x y = true := by
+      have hall : ∀ y ∈ dedup [] ((substL m M).flatMap flatten1), Ty.keq x y = true := by
         intro y hy
         obtain ⟨x', hx', hxy⟩ := h21 y hy
         rw [hx] at hx'
@@ -1560,7 +1842,7 @@ theorem subst_unite' (m : TvMap) {a b : Ty}
       omega
     · intro h1
       obtain ⟨y, hy⟩ := List.length_eq_one_iff.mp h1
-      have hall : ∀ x ∈ (substL m (dedup [] M)).flatMap flatten1, Ty.hashEq y x = true := by
+      have hall : ∀ x ∈ (substL m (dedup [] M)).flatMap flatten1, Ty.keq y x = true := by
         intro x hx
         obtain ⟨y', hy', hyx⟩ := h12 x hx
         rw [hy] at hy'
@@ -1652,10 +1934,10 @@ def Ty.tidyU : Ty → Bool
   | .union ts => ts.all Ty.tidy
   | t => t.tidy
 
-/-- on unions of tidy members `==` is mutual inclusion under hash lookup -/
+/-- on unions of tidy members `==` is mutual inclusion under hash-and-`==` lookup -/
 theorem beq_union_tidy {as bs : List Ty} (ha : ∀ a ∈ as, a.tidy = true) (hb : ∀ b ∈ bs, b.tidy = true) :
     Ty.beq (.union as) (.union bs) = true ↔
-      ((∀ a ∈ as, ∃ b ∈ bs, Ty.hashEq b a = true) ∧ (∀ b ∈ bs, ∃ a ∈ as, Ty.hashEq a b = true)) := by
+      ((∀ a ∈ as, ∃ b ∈ bs, Ty.keq b a = true) ∧ (∀ b ∈ bs, ∃ a ∈ as, Ty.keq a b = true)) := by
   rw [Ty.beq_union_iff]
   constructor
   · rintro (h | h)
@@ -1670,7 +1952,6 @@ theorem beq_union_tidy {as bs : List Ty} (ha : ∀ a ∈ as, a.tidy = true) (hb 
         exact ⟨a, haa, hba⟩
     · exact h
   · exact .inr
-
 theorem beq_trans_tidyU {a b c : Ty} (ha : a.tidyU = true) (hb : b.tidyU = true)
     (hc : c.tidyU = true) (h1 : Ty.beq a b = true) (h2 : Ty.beq b c = true) :
     Ty.beq a c = true := by
@@ -1686,13 +1967,84 @@ theorem beq_trans_tidyU {a b c : Ty} (ha : a.tidyU = true) (hb : b.tidyU = true)
     · intro x hx
       obtain ⟨y, hy, hyx⟩ := h1.1 x hx
       obtain ⟨z, hz, hzy⟩ := h2.1 y hy
-      exact ⟨z, hz, Ty.hashEq_trans _ _ _ hzy hyx⟩
+      exact ⟨z, hz, Ty.keq_trans _ _ _ hzy hyx⟩
     · intro z hz
       obtain ⟨y, hy, hyz⟩ := h2.2 z hz
       obtain ⟨x, hx, hxy⟩ := h1.2 y hy
-      exact ⟨x, hx, Ty.hashEq_trans _ _ _ hxy hyz⟩
+      exact ⟨x, hx, Ty.keq_trans _ _ _ hxy hyz⟩
   · have : a.hasUnion = false := by
       cases a <;> simp_all [Ty.tidyU, Ty.tidy, Ty.isUnion]
     exact Ty.beq_trans a this b c h1 h2
+
+/-! #### hash-equal values are `==`, outside the zero-hash collision -/
+
+mutual
+/-- contains a literal whose Python hash is 0 (`0`, `False`, `''`, `b''`): such a `KnownValue` hashes
+like the `TypedValue` of its class -/
+def Ty.hasZeroLit : Ty → Bool
+  | .known o => o.zeroHashCls.isSome
+  | .generic _ as => Ty.hasZeroLitL as
+  | .seq _ as => Ty.hasZeroLitL as
+  | .many t => Ty.hasZeroLit t
+  | .union ts => Ty.hasZeroLitL ts
+  | .annotated t => Ty.hasZeroLit t
+  | _ => false
+def Ty.hasZeroLitL : List Ty → Bool
+  | [] => false
+  | t :: ts => Ty.hasZeroLit t || Ty.hasZeroLitL ts
+end
+
+theorem Ty.hasZeroLitL_iff (ts : List Ty) :
+    Ty.hasZeroLitL ts = false ↔ ∀ t ∈ ts, t.hasZeroLit = false := by
+  induction ts <;> simp_all [Ty.hasZeroLitL]
+
+theorem Ty.beqList_of_hashEqList (as bs : List Ty)
+    (h : ∀ a ∈ as, ∀ b ∈ bs, Ty.hashEq a b = true → Ty.beq a b = true)
+    (h1 : Ty.hashEqList as bs = true) : Ty.beqList as bs = true := by
+  induction as generalizing bs with
+  | nil => cases bs <;> simp [Ty.hashEqList, Ty.beqList] at h1 ⊢
+  | cons a as ih =>
+    cases bs with
+    | nil => simp [Ty.hashEqList] at h1
+    | cons b bs =>
+      simp only [Ty.hashEqList, Ty.beqList, Bool.and_eq_true] at h1 ⊢
+      exact ⟨h a (by simp) b (by simp) h1.1,
+        ih bs (fun x hx y hy => h x (by simp [hx]) y (by simp [hy])) h1.2⟩
+
+theorem Ty.hashEq_imp_beq_of (a : Ty) : ∀ b, a.hasZeroLit = false → b.hasZeroLit = false →
+    Ty.hashEq a b = true → Ty.beq a b = true := by
+  induction a using Ty.ind' with
+  | known o =>
+    intro b ha hb h
+    cases b <;> simp only [Ty.hashEq, Bool.false_eq_true, Bool.and_eq_true, beq_iff_eq] at h
+    · simp only [Ty.beq]; exact h.2
+    · simp [Ty.hasZeroLit, h] at ha
+  | typed c =>
+    intro b ha hb h
+    cases b <;> simp only [Ty.hashEq, Bool.false_eq_true, beq_iff_eq] at h
+    · simp [Ty.hasZeroLit, h] at hb
+    · simpa [Ty.beq] using h
+  | generic c as ih | seq c as ih =>
+    intro b ha hb h
+    cases b <;> simp only [Ty.hashEq, Bool.false_eq_true, Bool.and_eq_true] at h
+    simp only [Ty.hasZeroLit, Ty.hasZeroLitL_iff] at ha hb
+    simp only [Ty.beq, Bool.and_eq_true]
+    exact ⟨h.1, Ty.beqList_of_hashEqList _ _ (fun x hx y hy => ih x hx y (ha x hx) (hb y hy)) h.2⟩
+  | union as ih =>
+    intro b ha hb h
+    cases b <;> simp only [Ty.hashEq, Bool.false_eq_true] at h
+    simp only [Ty.hasZeroLit, Ty.hasZeroLitL_iff] at ha hb
+    simp only [Ty.beq, Bool.or_eq_true]
+    exact .inl (Ty.beqList_of_hashEqList _ _ (fun x hx y hy => ih x hx y (ha x hx) (hb y hy)) h)
+  | many t ih | annotated t ih =>
+    intro b ha hb h
+    cases b <;> simp only [Ty.hashEq, Bool.false_eq_true] at h
+    simp only [Ty.hasZeroLit] at ha hb
+    simp only [Ty.beq]
+    exact ih _ ha hb h
+  | _ =>
+    intro b _ _ h
+    cases b <;> simp only [Ty.hashEq, Bool.false_eq_true, Bool.and_eq_true] at h <;>
+      simp only [Ty.beq] <;> grind
 
 end Pya
